@@ -76,11 +76,13 @@ package fclient
 
 //@ func (*DNSCache).lookup
 //@   property C19
-//@   requires c != nil && c.resolver != nil && !locked(c, "mutex") && c.size >= 1
+//@   requires c != nil && c.resolver != nil && !locked(c, "mutex")
 //@   ensures lock-released: !locked(c, "mutex")
 //@   ensures hit-not-expired: result[1] ==> (result[0] != nil && unixNano(result[0].expires) > nowNano)
 //@   ensures own-host: result[0] != nil ==> result[0].addrs == c.resolver.LookupIPAddr(nil, name)[0]
 //@   loop 1: invariant c.entries != nil && (forall n string :: n in c.entries ==> (c.entries[n] != nil && c.entries[n].addrs == c.resolver.LookupIPAddr(nil, n)[0])) && locked(c, "mutex")
+//@   loop 1: decreases len(c.entries)
+//@   loop 2: invariant (found <==> (exists k string :: seen(2)[k])) && (found ==> name in c.entries)
 
 //@ func (*DNSCache).DialContext
 //@   property C19
